@@ -1185,7 +1185,7 @@ fn part_e2e_nodes(o: &mut Outcome, rng: &mut Rng, thorough: bool) {
     let mut counter = 0usize;
     let mut progs: Vec<(SkipProgram, Vec<(String, String)>)> = vec![];
     // every node kind x depth 0..3 (x repetitions with different spellings / surroundings / options)
-    let reps = if thorough { 150 } else { 8 };
+    let reps = if thorough { 150 } else { 16 };
     for ix in 0..NODES.len() {
         for depth in 0..=3 {
             for _ in 0..reps {
@@ -1400,7 +1400,7 @@ fn macro_body_program(rng: &mut Rng, counter: &mut usize, thorough: bool, accept
 fn part_e2e_macro_bodies(o: &mut Outcome, rng: &mut Rng, thorough: bool) {
     let mut counter = 700000usize;
     let mut progs = vec![];
-    let n = if thorough { 40000 } else { 1600 };
+    let n = if thorough { 60000 } else { 6000 };
     for i in 0..n {
         if let Some(p) = macro_body_program(rng, &mut counter, thorough, i % 12 != 11) { progs.push(p); }
     }
@@ -1509,7 +1509,7 @@ fn part_mbody_corr(o: &mut Outcome, rng: &mut Rng, thorough: bool) {
         "",
     ];
     let mut cases = vec![];
-    let n = if thorough { 6000 } else { 500 };
+    let n = if thorough { 40000 } else { 4000 };
     for k in 0..n {
         let stmt = rng.chance(1, 2);
         let pool_ = if stmt { pieces_stmts } else { pieces_items };
@@ -2199,6 +2199,50 @@ fn part_probes(o: &mut Outcome, out: &Path) {
         let src2 = format!("macro_rules!  mr1 {{ ( ) => {{\nfn  nb( a:u32 ) {{   }}\n#[rustfmt::skip]\n   {}\n    }} ; }}\n", node2);
         let r2 = fmt(&src2, &[]);
         o.probes.push(json!({"id": "C04-macro-def-fallback", "fails": r.status != Status::Ok || count_occ(&r.out, &node) != 1, "what": "a #[rustfmt::skip] item with trailing blanks inside a macro_rules! body that cannot be laid out loses its trailing blanks (macros.rs rewrite_macro_def falls back to remove_trailing_white_spaces(snippet) for the whole definition)", "detail": {"src": src, "out": r.out, "control_kept_when_the_body_is_laid_out": count_occ(&r2.out, node2) == 1}}));
+    }
+    // a skipped STATEMENT in a macro body with attribute lines after the first: visit_stmt hands
+    // push_skipped_with_span the statement without its attributes as main_span, the recorded range starts
+    // at min(last attribute line + 1, statement line), and MacroBranch::rewrite indents the attribute lines
+    // in between (again on every run).  The first attribute line is meant to be indented
+    // (tests/target/issue-3105.rs pins it), so passing stmt.span() is not a fix the suite accepts.
+    {
+        let full = "#[rustfmt::skip]\n  #[cfg(any(feature = \"small-tables\",\n                  feature = \"tiny-tables\"))]\n     #[allow(  unused  )]\n        let  zqk1  =  [1, 2,\n             3, 4];";
+        let src = format!("macro_rules! m {{\n    ($a:expr) => {{\n        let  a=1 ;\n            {}\n        let  b=2 ;\n    }};\n}}\n", full);
+        let r = fmt(&src, &[]);
+        let r2 = fmt(&r.out, &[]);
+        // control: with every attribute on the first line the statement is kept
+        let full_c = "#[rustfmt::skip] #[allow(  unused  )]\n        let  zqk1  =  [1, 2,\n             3, 4];";
+        let src_c = format!("macro_rules! m {{\n    ($a:expr) => {{\n        let  a=1 ;\n            {}\n        let  b=2 ;\n    }};\n}}\n", full_c);
+        let rc = fmt(&src_c, &[]);
+        o.probes.push(json!({"id": "C04-macro-body-stmt-attrs", "fails": r.status != Status::Ok || count_occ(&r.out, full) != 1, "what": "a #[rustfmt::skip] statement directly in a macro_rules! body with further attribute lines (a second attribute, a multi-line attribute) gets those lines re-indented, by the body indentation again on every run: the recorded skipped range of a statement starts below its attribute lines and MacroBranch::rewrite indents every line outside a range", "detail": {"src": src, "out": r.out, "out_second_pass": r2.out, "second_pass_moves_them_again": r2.out != r.out, "control_all_attributes_on_the_first_line_kept": count_occ(&rc.out, full_c) == 1}}));
+    }
+    // a skipped node inside an impl / trait body, a closure or an inner block inside a macro body: those
+    // are formatted by nested visitors whose skipped ranges are dropped (impl / trait) or appended
+    // unshifted (blocks), so the continuation lines of the node count as formatted code and are indented
+    {
+        let cases: Vec<(&str, String, &str)> = vec![
+            ("impl method", "impl  S {\n            fn  a( ) { }\n            #[rustfmt::skip]\n            fn  zqk2( ) {\n  let  x  =  1 ;\n            }\n        }".into(), "fn  zqk2( ) {\n  let  x  =  1 ;\n            }"),
+            ("trait method", "trait  T {\n            #[rustfmt::skip]\n            fn  zqk2( ) {\n  let  x  =  1 ;\n            }\n        }".into(), "fn  zqk2( ) {\n  let  x  =  1 ;\n            }"),
+            ("statement in a closure body", "fn  g( ) {\n            let  c  =  || {\n            #[rustfmt::skip]\n            let  zqk2  =  [ 1 ,\n  2 ] ;\n            } ;\n        }".into(), "let  zqk2  =  [ 1 ,\n  2 ] ;"),
+            // control: the same statement directly in the fn's body (the same visitor) is kept
+            ("control: statement in the fn body", "fn  g( ) {\n            #[rustfmt::skip]\n            let  zqk2  =  [ 1 ,\n  2 ] ;\n        }".into(), "let  zqk2  =  [ 1 ,\n  2 ] ;"),
+        ];
+        let mut detail = vec![];
+        let mut fails = false;
+        for (what, body, node) in &cases {
+            let src = format!("macro_rules! m {{\n    ($a:expr) => {{\n        {}\n    }};\n}}\n", body);
+            let r = fmt(&src, &[]);
+            let kept = r.status == Status::Ok && count_occ(&r.out, node) == 1;
+            if what.starts_with("control") {
+                if !kept {
+                    o.direct_failures.push(json!({"sig": "c04:skipped-statement-in-fn-in-macro-body-not-verbatim", "what": "a skipped statement directly in the body of a fn of a macro body is not kept", "src": src, "out": r.out}));
+                }
+            } else {
+                fails |= !kept;
+            }
+            detail.push(json!({"case": what, "kept": kept, "src": src, "out": r.out}));
+        }
+        o.probes.push(json!({"id": "C04-macro-body-nested-visitor", "fails": fails, "what": "a #[rustfmt::skip] node inside an impl or trait body, a closure or an inner block that sits in a macro_rules! body gets its lines after the first re-indented (again on every run): nested visitors' skipped ranges are dropped (format_impl, format_trait) or merged unshifted (rewrite_block_inner), and MacroBranch::rewrite indents every line outside a recorded range", "detail": detail}));
     }
     // standard input with an inner skip attribute is echoed from rustc's normalised copy of the text
     {
